@@ -4,6 +4,7 @@ import (
 	"fmt"
 	"math/rand"
 	"os"
+	"strings"
 	"time"
 
 	"verif/harness/exec"
@@ -172,6 +173,15 @@ func Build(id, tier string, seed int64) (*BehavCheck, error) {
 		c.Classes = exec.Classes{Versions: true}
 		c.Sim.Classes = []string{"set", "set", "set", "rm", "rmhit", "save", "save", "save", "save", "rollback", "reopen", "reopen", "load", "load", "load", "lvfo", "delto", "deltook", "import"}
 		c.Nontrivial = func(b *model.Behaviour) bool { return hasOps(b, "save", "delto") || hasOps(b, "save", "load") }
+		c.PostRun = func(ev *Evidence) ([]string, []string, error) {
+			list := map[string]func() string{}
+			for name, f := range allScenarios {
+				if strings.HasPrefix(name, "unloaded-commit/") {
+					list[name] = f
+				}
+			}
+			return runScenarios(id, seed, ev, list), nil, nil
+		}
 		c.Rule = "Iavl.tla behaviours weighted towards commits, loads of older versions, re-commits, pruning and rollback, with InitialVersion unset/1/5; after every step VersionExists, GetImmutable, GetVersioned, LoadVersion (fresh handle) for every version number from first-2 to latest+2, AvailableVersions, GetLatestVersion, Version, WorkingVersion; SaveVersion numbers and error-ness at every commit; non-trivial = contains a commit and a successful prune or load"
 	case "C08":
 		c.Classes = exec.Classes{Iter: true}
